@@ -1,6 +1,6 @@
 (** C08 — correspondence cases: one constructor per public API call, with the observed outcome. *)
 From V.Lib Require Import Base.
-From V.C08 Require Import Sql Model Spec.
+From V.C08 Require Import Sql Model ModelT Spec.
 From V.Gen Require Import C08SqlPred.
 Local Open Scope Z_scope.
 
@@ -17,7 +17,14 @@ Inductive case :=
            (oracle : list oracle_entry) (obs : outcome (list step) perr)
 (** OutputLockStore::lock_outputs; [post] is the row dump afterwards *)
 | CLock (db : list note_row) (tip : option Z) (refs : list (pool * Z)) (owner expiry : Z)
-        (obs : outcome Z perr) (post : list note_row).
+        (obs : outcome Z perr) (post : list note_row)
+(** InputSource::get_spendable_transparent_outputs_for_addresses; observed: sorted output ids *)
+| CTSelect (udb : list utxo_row) (target : Z) (addrs : list Z) (pol : policy) (zero_conf : bool)
+           (f : cbfilter) (lf : lockfilter) (obs : outcome (list Z) sel_err)
+(** propose_shielding; [oracle] logs the change strategy's compute_balance calls (sorted input ids) *)
+| CShield (udb : list utxo_row) (e : env) (threshold : Z) (addrs : list Z) (pol : policy) (zero_conf : bool)
+          (f : cbfilter) (lp : lip) (iw : bool) (lock : option (Z * Z))
+          (oracle : list (list Z * tchange_result)) (obs : outcome (list step) perr).
 
 (** ** helpers *)
 
@@ -61,12 +68,23 @@ Definition cpool_eqb (a b : cpool) : bool :=
 
 Definition step_eqb (a b : step) : bool :=
   refs_eqb (sort_refs (s_inputs a)) (sort_refs (s_inputs b)) && (s_in_value a =? s_in_value b)
-  && (s_tin a =? s_tin b) && (s_pay a =? s_pay b)
+  && list_eqb Z.eqb (sort_z (s_tins a)) (sort_z (s_tins b)) && (s_pay a =? s_pay b)
   && list_eqb (fun x y => cpool_eqb (fst x) (fst y) && (snd x =? snd y)) (s_changes a) (s_changes b)
   && (s_fee a =? s_fee b) && option_eqb Z.eqb (s_anchor a) (s_anchor b).
 
 Definition sel_err_eqb (a b : sel_err) : bool :=
   match a, b with EIneligible, EIneligible | ESelOther, ESelOther => true | _, _ => false end.
+
+Definition toracle_fn (o : list (list Z * tchange_result)) (inputs : list utxo_row) : tchange_result :=
+  match find (fun en => list_eqb Z.eqb (fst en) (sort_z (map u_id inputs))) o with
+  | Some en => snd en
+  | None => TErr
+  end.
+
+Definition find_utxo (udb : list utxo_row) (i : Z) : option utxo_row := find (fun u => u_id u =? i) udb.
+
+Fixpoint nodup_z (l : list Z) : bool :=
+  match l with [] => true | x :: t => negb (existsb (Z.eqb x) t) && nodup_z t end.
 
 Definition FUEL : nat := 64.
 
@@ -90,6 +108,13 @@ Definition run_case (c : case) : bool :=
       | None, Err _ => list_eqb row_eqb db post
       | _, _ => false
       end
+  | CTSelect udb target addrs pol zc f lf obs =>
+      outcome_eqb (list_eqb Z.eqb) sel_err_eqb
+        (Ok (sort_z (map u_id (select_utxos udb target addrs pol zc f lf)))) obs
+  | CShield udb e threshold addrs pol zc f lp iw lock oracle obs =>
+      outcome_eqb (list_eqb step_eqb) perr_eqb
+        (propose_shielding (toracle_fn oracle) udb e (Some (e_target e - 1)) threshold addrs pol zc f lp iw lock)
+        obs
   end.
 
 (** ** the property, evaluated on the implementation's outcome against the independent row dump *)
@@ -108,7 +133,7 @@ Definition value_of_refs (db : list note_row) (refs : list (pool * Z)) : Z :=
 Definition owners_of (lf : lockfilter) : option (list Z) :=
   match lf with LFUnfiltered => None | LFPolicy _ => Some (overridable lf) end.
 
-Definition prop_case (c : case) : bool :=
+Definition prop_case_s (c : case) : bool :=
   match c with
   | CSelect db e acct p tv pol exclude lf obs =>
       match obs with
@@ -141,7 +166,7 @@ Definition prop_case (c : case) : bool :=
                    all_spendable db (fun q => SC acct q (e_target e) a (tip_unscanned e q a) pol
                                                   (Some (overridable (LFPolicy lp)))) (s_inputs s)
                end
-               && (s_in_value s =? value_of_refs db (s_inputs s)) && (s_tin s =? 0)
+               && (s_in_value s =? value_of_refs db (s_inputs s)) && match s_tins s with [] => true | _ => false end
                && step_balanced s) steps
           && (fold_right (fun s a => s_pay s + a) 0 steps =? pay)
       end
@@ -161,7 +186,41 @@ Definition prop_case (c : case) : bool :=
                 else row_eqb r' r) (combine db post)
           && forallb (fun x => match find_row db x with Some _ => true | None => false end) refs
       end
+  | _ => true
   end.
+
+Definition prop_case_t (c : case) : bool :=
+  match c with
+  | CTSelect udb target addrs pol zc f lf obs =>
+      match obs with
+      | Panic => false
+      | Err _ => true
+      | Ok ids =>
+          nodup_z ids
+          && forallb (fun i => match find_utxo udb i with
+                               | Some u => utxo_spendable target (minconf pol zc) f addrs (owners_of lf) u
+                               | None => false end) ids
+      end
+  | CShield udb e threshold addrs pol zc f lp iw lock oracle obs =>
+      match obs with
+      | Panic => false
+      | Err _ => true
+      | Ok [s] =>
+          match s_inputs s with [] => true | _ => false end
+          && nodup_z (s_tins s)
+          && forallb (fun i => match find_utxo udb i with
+                               | Some u => utxo_spendable (e_target e) (minconf pol zc) f addrs
+                                             (Some (overridable (LFPolicy lp))) u
+                               | None => false end) (s_tins s)
+          && (s_in_value s =? fold_right (fun i a => match find_utxo udb i with Some u => u_value u + a | None => a end) 0 (s_tins s))
+          && (0 <? s_in_value s) && (s_pay s =? 0) && step_balanced s
+          && (threshold <=? s_change s + s_fee s)
+      | Ok _ => false
+      end
+  | _ => true
+  end.
+
+Definition prop_case (c : case) : bool := prop_case_s c && prop_case_t c.
 
 Definition known_class (c : case) : N := 0%N.
 
@@ -217,6 +276,21 @@ Definition tag_z (c : case) : Z :=
                                && match r_lock r with Some _ => true | None => false end) db then 22 else 19
       | _ =>
           if forallb (fun x => match find_row db x with Some _ => true | None => false end) refs then 21 else 20
+      end
+  | CTSelect udb target addrs pol zc f lf obs =>
+      match obs with
+      | Ok [] => if existsb (fun u => existsb (Z.eqb (u_addr u)) addrs) udb then 27 else 26
+      | Ok _ => if zc then 28 else 29
+      | _ => 30
+      end
+  | CShield _ _ _ _ _ _ _ _ _ lock oracle obs =>
+      match obs with
+      | Ok _ => if existsb (fun en => match snd en with TDust _ => true | _ => false end) oracle then 32 else 31
+      | Err EInsufficient => 33
+      | Err EChange => 34
+      | Err ELocked => 35
+      | Err ESyncRequired => 36
+      | _ => 37
       end
   end.
 Definition tag_case (c : case) : N := Z.to_N (tag_z c).
